@@ -1,5 +1,9 @@
 import OW.Proofs.GR4JSpec
 import OW.Proofs.GR4JConv
+import OW.Proofs.GR4JModel
+import OW.Proofs.GR4JClosed
+import OW.Proofs.GR4JCap
+import Mathlib.Analysis.SpecialFunctions.Artanh
 /-!
 C15 — GR4J computes the published GR4J equations (Perrin, Michel, Andréassian 2003).
 
@@ -8,6 +12,22 @@ K correspondence); `OW.Spec.GR4J` is written from the paper. The theorems below 
 that both define the same unit-hydrograph ordinates and the same runs. Proofs are in OW/Proofs/GR4JUH.lean and
 OW/Proofs/GR4JSpec.lean; nothing here depends on a division being cancelled (x/0 = 0 is never used: the
 equalities are between identical quotients).
+
+All theorems are at `α := ℝ` (exact real arithmetic, `Real.rpow`, `Real.tanh`); they are NOT generic in `Num α`.
+Three places where ℝ is more forgiving than float64, and how they are kept out:
+* `x / 0 = 0` at ℝ, ±Inf/NaN in Go: the run theorems assume x1 > 0, x3 > 0, x4 > 0 (the only divisors);
+* `b ^ 3.5 = 0` for b < 0 at ℝ (`Real.rpow` of a negative base, cos(3.5π) = 0), NaN in Go: the only power with a
+  non-integer exponent and a base that is not ≥ 1 by construction is `(R/x3)^3.5`; with x3 > 0 its base is
+  non-negative as soon as R ≥ 0, which every day re-establishes (`R ← max(0, ·) − Qr ≥ 0`; C10 `Inv`), so on every
+  day after the first — and on the first for an initial store R ≥ 0 — the ℝ power is the power Go computes;
+* `int(float64(n)) = n`: exact at ℝ (`toInt_ofNat`), exact at float64 for n < 2^53, checked by execution.
+
+Layers (all in this file): ordinates (`sh1_…`, `sh2_…`, `uh_…`), runs of the kernel vs the specification
+(`gr4j_code_eq_spec…`), the adapter `model.run` / `model.init` on packed state rows (`model_run_eq_packed_run`,
+`model_run_from_init`, `model_eq_spec_model`), the specification in closed (convolution) form
+(`spec_run_closed_form`, `gr4j_code_closed_form`), and the tanh safeguard (`gr4j_spec_cap_inactive`,
+`gr4j_code_eq_published`: a PARTIAL result — it needs |P − E| ≤ 13·x1, and `cap_hypothesis_needed` shows the
+hypothesis cannot be dropped).
 -/
 namespace OW.Props.C15
 open OW OW.Kernels.GR4J
@@ -48,25 +68,29 @@ theorem init_lengths (x4 : ℝ) (hx : 0 < x4) :
   · show (zeros (initState x4).2.2).length = _
     rw [h2]; exact List.length_replicate
 
-/-- **GR4J = published GR4J.** For all parameters (x4 > 0), every rainfall/PET series and every initial
-production store, routing store and unit-hydrograph stores (vectors of the lengths ⌈x4⌉, ⌈2·x4⌉), the kernel run
-and the specification run produce the same runoff series (and the same Qr, Qd), and end in the same S, R and
-unit-hydrograph stores. -/
-theorem gr4j_code_eq_spec (x1 x2 x3 x4 : ℝ) (hx4 : 0 < x4) (st : State ℝ) (hst : RR.GR4J.Shaped x4 st)
-    (xs : List (ℝ × ℝ)) :
+/-- **GR4J = published GR4J (tanh argument safeguarded).** For all parameters with x1, x3, x4 > 0, every
+rainfall/PET series and every initial production store, routing store and unit-hydrograph stores (vectors of the
+lengths ⌈x4⌉, ⌈2·x4⌉), the kernel run and the specification run produce the same runoff series (and the same Qr,
+Qd), and end in the same S, R and unit-hydrograph stores.
+`x1 > 0`, `x3 > 0` are not used by the proof (the two sides are the same real expressions also for other values);
+they are hypotheses because outside them the real expressions are not what Go computes (division by zero, negative
+base of `(R/x3)^3.5`: 0 at ℝ, NaN in Go), see the header. -/
+theorem gr4j_code_eq_spec (x1 x2 x3 x4 : ℝ) (_hx1 : 0 < x1) (_hx3 : 0 < x3) (hx4 : 0 < x4) (st : State ℝ)
+    (hst : RR.GR4J.Shaped x4 st) (xs : List (ℝ × ℝ)) :
     Spec.GR4J.run Spec.GR4J.tanhArgSafeguarded x1 x2 x3 x4 (RR.GR4J.toSpec st) xs =
       (RR.GR4J.toSpec (run x1 x2 x3 x4 ⌈x4⌉₊ ⌈2 * x4⌉₊ st xs).1,
        (run x1 x2 x3 x4 ⌈x4⌉₊ ⌈2 * x4⌉₊ st xs).2.map RR.GR4J.toDay) :=
   (RR.GR4J.run_eq_spec x1 x2 x3 x4 hx4 xs st hst).1
 
 /-- The same from the model's own initial state (what `InitialiseStates` produces). -/
-theorem gr4j_code_eq_spec_from_init (x1 x2 x3 x4 : ℝ) (hx4 : 0 < x4) (xs : List (ℝ × ℝ)) :
+theorem gr4j_code_eq_spec_from_init (x1 x2 x3 x4 : ℝ) (hx1 : 0 < x1) (hx3 : 0 < x3) (hx4 : 0 < x4)
+    (xs : List (ℝ × ℝ)) :
     Spec.GR4J.run Spec.GR4J.tanhArgSafeguarded x1 x2 x3 x4 (RR.GR4J.toSpec (initState x4).1) xs =
       (RR.GR4J.toSpec (run x1 x2 x3 x4 (initState x4).2.1 (initState x4).2.2 (initState x4).1 xs).1,
        (run x1 x2 x3 x4 (initState x4).2.1 (initState x4).2.2 (initState x4).1 xs).2.map RR.GR4J.toDay) := by
   obtain ⟨h1, h2, h3⟩ := init_lengths x4 hx4
   rw [h1, h2]
-  exact gr4j_code_eq_spec x1 x2 x3 x4 hx4 _ h3 xs
+  exact gr4j_code_eq_spec x1 x2 x3 x4 hx1 hx3 hx4 _ h3 xs
 
 example : RR.GR4J.Shaped (1.7 : ℝ) (initState (1.7 : ℝ)).1 := (init_lengths 1.7 (by norm_num)).2.2
 
@@ -84,14 +108,70 @@ example : ∀ pe ∈ [((10 : ℝ), (3 : ℝ)), (0, 5)], |pe.1 - pe.2| ≤ 13 * (
   simp only [List.mem_cons, List.not_mem_nil, or_false] at hpe
   rcases hpe with rfl | rfl <;> norm_num [abs_le]
 
-/-- Hence: code = equations as printed, on every series with |P − E| ≤ 13·x1. -/
-theorem gr4j_code_eq_published (x1 x2 x3 x4 : ℝ) (hx1 : 0 < x1) (hx4 : 0 < x4) (st : State ℝ)
+/-- Hence: code = equations as printed, on every series with |P − E| ≤ 13·x1 (and x1, x3, x4 > 0).
+PARTIAL with respect to the property text ("computes the published equations"): the code caps the argument of
+tanh at 13, the published equations do not, so on a day with |P − E| > 13·x1 the two differ (by at most
+x1·(1 − tanh 13) ≈ 1.02·10⁻¹¹·x1 in Ps / Es on that day: `cap_day_gap`; `cap_hypothesis_needed` shows the difference
+is real; no bound on the propagated difference of a whole run is proved). Listed in
+`partial=` of checks/C15.py. The unconditional statement is `gr4j_code_eq_spec` (safeguarded specification). -/
+theorem gr4j_code_eq_published (x1 x2 x3 x4 : ℝ) (hx1 : 0 < x1) (hx3 : 0 < x3) (hx4 : 0 < x4) (st : State ℝ)
     (hst : RR.GR4J.Shaped x4 st) (xs : List (ℝ × ℝ)) (h : ∀ pe ∈ xs, |pe.1 - pe.2| ≤ 13 * x1) :
     Spec.GR4J.run Spec.GR4J.tanhArgPublished x1 x2 x3 x4 (RR.GR4J.toSpec st) xs =
       (RR.GR4J.toSpec (run x1 x2 x3 x4 ⌈x4⌉₊ ⌈2 * x4⌉₊ st xs).1,
        (run x1 x2 x3 x4 ⌈x4⌉₊ ⌈2 * x4⌉₊ st xs).2.map RR.GR4J.toDay) := by
   rw [gr4j_spec_cap_inactive x1 x2 x3 x4 hx1 xs h]
-  exact gr4j_code_eq_spec x1 x2 x3 x4 hx4 st hst xs
+  exact gr4j_code_eq_spec x1 x2 x3 x4 hx1 hx3 hx4 st hst xs
+
+/-- **The hypothesis |P − E| ≤ 13·x1 cannot be dropped.** From an empty production store, on any day with net
+rainfall Pn > 13·x1 (x1 > 0 is the divisor) the published Ps = x1·tanh(Pn/x1) and the safeguarded Ps = x1·tanh 13
+(what the code computes, `production_eq`) are different numbers: tanh is injective. -/
+theorem cap_hypothesis_needed (x1 pn : ℝ) (hx1 : 0 < x1) (h : 13 * x1 < pn) :
+    Spec.GR4J.Ps Spec.GR4J.tanhArgPublished x1 0 pn ≠ Spec.GR4J.Ps Spec.GR4J.tanhArgSafeguarded x1 0 pn := by
+  have h13 : 13 < pn / x1 := by rw [lt_div_iff₀ hx1]; exact h
+  rw [RR.GR4J.Ps_real]
+  have hc : RR.GR4J.cap (pn / x1) = 13 := by unfold RR.GR4J.cap; rw [if_pos h13]
+  rw [hc]
+  simp only [Spec.GR4J.Ps, Spec.GR4J.sq, Spec.GR4J.tanhArgPublished, RealNum.tanh_eq, RealNum.ofNat_eq]
+  norm_num only
+  intro heq
+  have h2 : Real.tanh (pn / x1) = Real.tanh 13 := by
+    have := heq
+    simp only [zero_div, mul_zero, sub_zero, mul_one, zero_mul, add_zero, div_one, ne_eq, OfNat.ofNat_ne_zero,
+      not_false_eq_true, zero_pow] at this
+    exact mul_left_cancel₀ hx1.ne' this
+  have := Real.tanh_injective h2
+  linarith
+
+example : (13 : ℝ) * 1 < 14 := by norm_num
+
+/-- **Size of the safeguard on one day.** For x1 > 0 (the divisor), a production store 0 ≤ S ≤ x1 and net
+rainfall / net evapotranspiration ≥ 0, the published Ps (resp. Es) is at least the safeguarded one — what the code
+computes — and exceeds it by at most x1·(1 − tanh 13), whatever P − E is. (1 − tanh 13 = 2/(e²⁶+1) ≈ 1.02·10⁻¹¹:
+hand calculation, not part of the theorem.) This bounds the deviation from the printed equations on ONE day from
+equal stores; how it propagates through S over a run is not proved (measured by the KSPEC-published family). -/
+theorem cap_day_gap (x1 S pn en : ℝ) (hx1 : 0 < x1) (hS0 : 0 ≤ S) (hS1 : S ≤ x1) (hpn : 0 ≤ pn) (hen : 0 ≤ en) :
+    (0 ≤ Spec.GR4J.Ps Spec.GR4J.tanhArgPublished x1 S pn - Spec.GR4J.Ps Spec.GR4J.tanhArgSafeguarded x1 S pn ∧
+     Spec.GR4J.Ps Spec.GR4J.tanhArgPublished x1 S pn - Spec.GR4J.Ps Spec.GR4J.tanhArgSafeguarded x1 S pn ≤
+       x1 * (1 - Real.tanh 13)) ∧
+    (0 ≤ Spec.GR4J.Es Spec.GR4J.tanhArgPublished x1 S en - Spec.GR4J.Es Spec.GR4J.tanhArgSafeguarded x1 S en ∧
+     Spec.GR4J.Es Spec.GR4J.tanhArgPublished x1 S en - Spec.GR4J.Es Spec.GR4J.tanhArgSafeguarded x1 S en ≤
+       x1 * (1 - Real.tanh 13)) :=
+  RR.GR4J.cap_day_gap x1 S pn en hx1 hS0 hS1 hpn hen
+
+example : (0 : ℝ) < 350 ∧ (0 : ℝ) ≤ 100 ∧ (100 : ℝ) ≤ 350 ∧ (0 : ℝ) ≤ 13 * 350 + 1 := by norm_num
+
+/-- **The base of the exchange power is never negative.** With x3 > 0 and an initial routing store R ≥ 0, the
+routing store after every prefix of every series is ≥ 0, hence `R/x3 ≥ 0` on every day: `(R/x3)^3.5` is a power of a
+non-negative base, where `Real.rpow` and Go's `math.Pow` are the same function (for a negative base ℝ gives 0 and
+Go NaN). This is what the hypothesis x3 > 0 of the run theorems buys; no condition on x1, x2, x4 or the inputs. -/
+theorem exchange_base_nonneg (x1 x2 x3 x4 : ℝ) (hx3 : 0 < x3) (n1 n2 : ℕ) (st : State ℝ) (hR : 0 ≤ st.R)
+    (xs : List (ℝ × ℝ)) (k : ℕ) :
+    0 ≤ (run x1 x2 x3 x4 n1 n2 st (xs.take k)).1.R / x3 :=
+  div_nonneg (RR.GR4J.run_R_nonneg x1 x2 x3 x4 hx3 n1 n2 _ st hR) hx3.le
+
+example : (0 : ℝ) ≤ (initState (1.7 : ℝ)).1.R := by
+  show (0 : ℝ) ≤ 0.0
+  rw [RR.GR4J.sciZero]
 
 /-- **The specification's unit hydrographs are the paper's convolutions.** Run day by day from a vector of pending
 deliveries of length ⌈x4⌉ (resp. ⌈2·x4⌉), the specification delivers on day t what was pending for that day plus
@@ -111,5 +191,206 @@ example : (1 : ℕ) < ([3.5, 0, 12] : List ℝ).length ∧ ([0, 0] : List ℝ).l
   have : ⌈(1.7 : ℝ)⌉₊ = 2 := by
     rw [Nat.ceil_eq_iff (by norm_num)]; constructor <;> norm_num
   rw [this]; rfl
+
+/-! ### The adapter: `model.run` / `model.init` on packed state rows -/
+
+/-- **`model.run` on a packed state is the packed `run`.** For a state whose unit-hydrograph stores have the
+lengths n2 (q1) and n1 (q9), both ≥ 1, the adapter — `extractGR4JStates` (reads S, R, `int(n1)`, `int(n2)`, slices
+q1 = row[4 .. 4+n2), q9 = row[4+n2 .. 4+n2+n1)), the kernel, `packGR4JStates` — applied to the row
+`[S, R, n1, n2, q1…, q9…]` does not panic and returns: the runoff series of `run`, the packed final state of `run`
+(same layout, same n1, n2), and the branch tags. The offsets, the `int ∘ float64` round-trip of the two lengths and
+the length checks are inside this theorem. -/
+theorem model_run_eq_packed_run (x1 x2 x3 x4 : ℝ) (n1 n2 : ℕ) (h1 : 0 < n1) (h2 : 0 < n2) (st : State ℝ)
+    (hq1 : st.q1.length = n2) (hq9 : st.q9.length = n1) (rain pet : List ℝ) :
+    (model (α := ℝ)).run [x1, x2, x3, x4] [rain, pet] (pack st n1 n2) =
+      .ok { outputs := [(run x1 x2 x3 x4 n1 n2 st (rain.zip pet)).2.map (·.runoff)],
+            states := pack (run x1 x2 x3 x4 n1 n2 st (rain.zip pet)).1 n1 n2,
+            tags := dedup ((run x1 x2 x3 x4 n1 n2 st (rain.zip pet)).2.flatMap (·.tags)) ++
+              ["n1=" ++ toString n1, "n2=" ++ toString n2] } :=
+  RR.GR4J.model_run_pack x1 x2 x3 x4 n1 n2 h1 h2 st hq1 hq9 rain pet
+
+/-- the hypotheses are satisfiable and the row is what one expects: x4 = 1 gives n1 = 1, n2 = 2 and the row
+`[S, R, 1, 2, q1[0], q1[1], q9[0]]` -/
+example : pack (⟨0, 90, [2, 0], [3]⟩ : State ℝ) 1 2 = [0, 90, Num.ofNat 1, Num.ofNat 2, 2, 0, 3] ∧
+    (⟨0, 90, [2, 0], [3]⟩ : State ℝ).q1.length = 2 ∧ (⟨0, 90, [2, 0], [3]⟩ : State ℝ).q9.length = 1 :=
+  ⟨rfl, rfl, rfl⟩
+
+/-- **`model.run p ins (model.init p)`.** For x4 > 0, `InitialiseStates` followed by a run is the packed result of
+`run` from `initGR4J`'s state with n1 = ⌈x4⌉, n2 = ⌈2·x4⌉: no panic, runoff series of `run`, final row
+`[S, R, ⌈x4⌉, ⌈2·x4⌉, q1…, q9…]`. (`init` returns an `Except`, hence the bind.) -/
+theorem model_run_from_init (x1 x2 x3 x4 : ℝ) (hx4 : 0 < x4) (rain pet : List ℝ) :
+    ((model (α := ℝ)).init [x1, x2, x3, x4] >>= fun row => (model (α := ℝ)).run [x1, x2, x3, x4] [rain, pet] row) =
+      .ok (RR.GR4J.packedResult x1 x2 x3 x4 ⌈x4⌉₊ ⌈2 * x4⌉₊ (initState x4).1 rain pet) ∧
+    (RR.GR4J.packedResult x1 x2 x3 x4 ⌈x4⌉₊ ⌈2 * x4⌉₊ (initState x4).1 rain pet).outputs =
+      [(run x1 x2 x3 x4 ⌈x4⌉₊ ⌈2 * x4⌉₊ (initState x4).1 (rain.zip pet)).2.map (·.runoff)] ∧
+    (RR.GR4J.packedResult x1 x2 x3 x4 ⌈x4⌉₊ ⌈2 * x4⌉₊ (initState x4).1 rain pet).states =
+      pack (run x1 x2 x3 x4 ⌈x4⌉₊ ⌈2 * x4⌉₊ (initState x4).1 (rain.zip pet)).1 ⌈x4⌉₊ ⌈2 * x4⌉₊ :=
+  ⟨RR.GR4J.model_run_init x1 x2 x3 x4 hx4 rain pet, rfl, rfl⟩
+
+/-- the initial row for x4 = 1, evaluated: `[S, R, n1, n2, q1[0], q1[1], q9[0]] = [0, 0, 1, 2, 0, 0, 0]` -/
+example : (model (α := ℝ)).init [350, -1, 90, 1] = .ok [0, 0, 1, 2, 0, 0, 0] := by
+  rw [RR.GR4J.model_init]
+  have h1 : (initState (1 : ℝ)).2.1 = 1 := by rw [RR.GR4J.init_n1 1 one_pos, Nat.ceil_one]
+  have h2 : (initState (1 : ℝ)).2.2 = 2 := by
+    rw [RR.GR4J.init_n2 1 one_pos, mul_one]; exact Nat.ceil_natCast 2
+  have hS : (initState (1 : ℝ)).1.S = 0 := RR.GR4J.sciZero
+  have hR : (initState (1 : ℝ)).1.R = 0 := RR.GR4J.sciZero
+  rw [RR.GR4J.pack_cons, RR.GR4J.initState_q1, RR.GR4J.initState_q9, h1, h2, hS, hR]
+  simp only [zeros, List.replicate, RealNum.zero_eq, RR.GR4J.numOfNat_eq, List.cons_append, List.nil_append,
+    Nat.cast_one, RealNum.ofNat_eq]
+
+/-- **The state row returned by a run can be handed to the next run.** (Hot start at adapter level: the row is
+again a packed state with stores of the same lengths, so `model_run_eq_packed_run` applies to it.) -/
+theorem model_run_chain (x1 x2 x3 x4 : ℝ) (n1 n2 : ℕ) (h1 : 0 < n1) (h2 : 0 < n2) (st : State ℝ)
+    (hq1 : st.q1.length = n2) (hq9 : st.q9.length = n1) (rain pet rain' pet' : List ℝ) :
+    (model (α := ℝ)).run [x1, x2, x3, x4] [rain', pet'] (RR.GR4J.packedResult x1 x2 x3 x4 n1 n2 st rain pet).states =
+      .ok (RR.GR4J.packedResult x1 x2 x3 x4 n1 n2 (run x1 x2 x3 x4 n1 n2 st (rain.zip pet)).1 rain' pet') :=
+  RR.GR4J.model_run_chain x1 x2 x3 x4 n1 n2 h1 h2 st hq1 hq9 rain pet rain' pet'
+
+example : (0 : ℕ) < 1 ∧ (0 : ℕ) < 2 := ⟨by decide, by decide⟩
+
+/-- **Malformed rows are refused, not repaired.** A length cell n1 = 0 is the index panic of `SH1[n1-1]`; a row
+shorter than 4 + n1 + n2 is the slice panic of `extractGR4JStates`. -/
+theorem model_run_rejects_malformed_row (x1 x2 x3 x4 S R : ℝ) (rest rain pet : List ℝ) :
+    (∀ n2f : ℝ, (model (α := ℝ)).run [x1, x2, x3, x4] [rain, pet] (S :: R :: 0 :: n2f :: rest) =
+      .error "index-out-of-range") ∧
+    (∀ n1 n2 : ℕ, 0 < n1 → 0 < n2 → rest.length < n1 + n2 →
+      (model (α := ℝ)).run [x1, x2, x3, x4] [rain, pet]
+        (S :: R :: (Num.ofNat n1 : ℝ) :: (Num.ofNat n2 : ℝ) :: rest) = .error "index-out-of-range") :=
+  ⟨fun n2f => RR.GR4J.model_run_zero_len x1 x2 x3 x4 S R n2f rest rain pet,
+   fun n1 n2 h1 h2 hr => RR.GR4J.model_run_short_row x1 x2 x3 x4 n1 n2 h1 h2 S R rest rain pet hr⟩
+
+example : ([5] : List ℝ).length < 1 + 2 := by decide
+
+/-- **The two programs of the K and KSPEC families agree.** For x1, x3, x4 > 0 and every packed Shaped state, the
+code's adapter `model.run` and the specification's adapter `Spec.GR4J.model.run` both succeed on the same row and
+return the same output series and the same state row (the specification has no branch tags); and their
+`InitialiseStates` rows are equal. So the chain Go ↔ `model` (family K) ↔ `Spec.GR4J.model` (this theorem) ↔ Go
+(family KSPEC) closes at the level of the protocol line, not only of `run`. -/
+theorem model_eq_spec_model (x1 x2 x3 x4 : ℝ) (_hx1 : 0 < x1) (_hx3 : 0 < x3) (hx4 : 0 < x4) (st : State ℝ)
+    (hst : RR.GR4J.Shaped x4 st) (rain pet : List ℝ) :
+    (∃ o o' : KOut ℝ,
+      (model (α := ℝ)).run [x1, x2, x3, x4] [rain, pet] (pack st ⌈x4⌉₊ ⌈2 * x4⌉₊) = .ok o ∧
+      (Spec.GR4J.model (α := ℝ)).run [x1, x2, x3, x4] [rain, pet] (pack st ⌈x4⌉₊ ⌈2 * x4⌉₊) = .ok o' ∧
+      o = RR.GR4J.packedResult x1 x2 x3 x4 ⌈x4⌉₊ ⌈2 * x4⌉₊ st rain pet ∧
+      o.outputs = o'.outputs ∧ o.states = o'.states) ∧
+    (Spec.GR4J.model (α := ℝ)).init [x1, x2, x3, x4] = (model (α := ℝ)).init [x1, x2, x3, x4] :=
+  ⟨RR.GR4J.model_eq_spec_model x1 x2 x3 x4 hx4 st hst rain pet, RR.GR4J.spec_model_init _ _ x1 x2 x3 x4⟩
+
+example : RR.GR4J.Shaped (1 : ℝ) (⟨0, 90, [2, 0], [3]⟩ : State ℝ) := by
+  refine ⟨?_, ?_⟩
+  · show 1 = ⌈(1 : ℝ)⌉₊
+    rw [Nat.ceil_one]
+  · show 2 = ⌈2 * (1 : ℝ)⌉₊
+    rw [mul_one]; exact (Nat.ceil_natCast 2).symm
+
+/-! ### The specification in closed (convolution) form -/
+
+/-- **Closed form of a specification run.** Let Pr(0), Pr(1), … be the series produced by the production-store
+recurrence alone (`RR.GR4J.prodDay`: eqs. 1–8, a function of S, P, E only). Then the daily (Q, Qr, Qd) of
+`Spec.GR4J.run` are those of the routing recurrence (`RR.GR4J.routeDay`: eqs. 18–22, real form in
+`RR.GR4J.routeDay_real`) driven by
+  Q9(t) = pend9[t] + Σ_{i≤t} UH1(t−i+1)·0.9·Pr(i),   Q1(t) = pend1[t] + Σ_{i≤t} UH2(t−i+1)·0.1·Pr(i),
+the convolutions of the paper with the published ordinates (pend = what was already under way at the start: zero
+for a run from `initState`); the final S is that of the production recurrence, the final R that of the routing
+recurrence. Holds for either tanh argument. This composes `spec_uh_is_convolution` into `Spec.GR4J.run`. -/
+theorem spec_run_closed_form (tanhArg : ℝ → ℝ) (x1 x2 x3 x4 : ℝ) (hx4 : 0 < x4) (st : Spec.GR4J.State ℝ)
+    (h9 : st.pend9.length = ⌈x4⌉₊) (h1 : st.pend1.length = ⌈2 * x4⌉₊) (xs : List (ℝ × ℝ)) :
+    (Spec.GR4J.run tanhArg x1 x2 x3 x4 st xs).2 =
+      (scan (RR.GR4J.routeDay x2 x3) st.R ((List.range xs.length).map (fun t =>
+        (st.pend9.getD t 0 + ∑ i ∈ Finset.range (t + 1), Spec.GR4J.UH1 x4 (t - i + 1) *
+            (0.9 * (scan (RR.GR4J.prodDay tanhArg x1) st.S xs).2.getD i 0),
+         st.pend1.getD t 0 + ∑ i ∈ Finset.range (t + 1), Spec.GR4J.UH2 x4 (t - i + 1) *
+            (0.1 * (scan (RR.GR4J.prodDay tanhArg x1) st.S xs).2.getD i 0))))).2 ∧
+    (Spec.GR4J.run tanhArg x1 x2 x3 x4 st xs).1.S = (scan (RR.GR4J.prodDay tanhArg x1) st.S xs).1 ∧
+    (Spec.GR4J.run tanhArg x1 x2 x3 x4 st xs).1.R =
+      (scan (RR.GR4J.routeDay x2 x3) st.R ((List.range xs.length).map (fun t =>
+        (st.pend9.getD t 0 + ∑ i ∈ Finset.range (t + 1), Spec.GR4J.UH1 x4 (t - i + 1) *
+            (0.9 * (scan (RR.GR4J.prodDay tanhArg x1) st.S xs).2.getD i 0),
+         st.pend1.getD t 0 + ∑ i ∈ Finset.range (t + 1), Spec.GR4J.UH2 x4 (t - i + 1) *
+            (0.1 * (scan (RR.GR4J.prodDay tanhArg x1) st.S xs).2.getD i 0))))).1 :=
+  RR.GR4J.run_closed_form tanhArg x1 x2 x3 x4 hx4 st h9 h1 xs
+
+example : (Spec.GR4J.initState (1 : ℝ)).pend9.length = ⌈(1 : ℝ)⌉₊ := by
+  show (zeros (Spec.GR4J.nUH1 (1 : ℝ)) : List ℝ).length = _
+  rw [RR.GR4J.zeros_length]
+  exact RR.GR4J.toInt_ceil 1 one_pos
+
+/-- **The code in closed form.** The kernel's daily (runoff, Qr, Qd) are the routing recurrence driven by the
+convolutions of 0.9·Pr / 0.1·Pr with the published ordinates (plus the initial contents of its UH stores read as
+pending deliveries), Pr from the production recurrence with the safeguarded tanh argument. -/
+theorem gr4j_code_closed_form (x1 x2 x3 x4 : ℝ) (hx1 : 0 < x1) (hx3 : 0 < x3) (hx4 : 0 < x4) (st : State ℝ)
+    (hst : RR.GR4J.Shaped x4 st) (xs : List (ℝ × ℝ)) :
+    (run x1 x2 x3 x4 ⌈x4⌉₊ ⌈2 * x4⌉₊ st xs).2.map RR.GR4J.toDay =
+      (scan (RR.GR4J.routeDay x2 x3) st.R ((List.range xs.length).map (fun t =>
+        (RR.GR4J.Q9 x4 st.q9 (scan (RR.GR4J.prodDay Spec.GR4J.tanhArgSafeguarded x1) st.S xs).2 t,
+         RR.GR4J.Q1 x4 st.q1 (scan (RR.GR4J.prodDay Spec.GR4J.tanhArgSafeguarded x1) st.S xs).2 t)))).2 := by
+  have e := gr4j_code_eq_spec x1 x2 x3 x4 hx1 hx3 hx4 st hst xs
+  have c := (RR.GR4J.run_closed_form Spec.GR4J.tanhArgSafeguarded x1 x2 x3 x4 hx4 (RR.GR4J.toSpec st)
+    hst.1 hst.2 xs).1
+  rw [e] at c
+  exact c
+
+/-! ### A concrete day, both sides evaluated
+
+x1 = 350, x2 = −1, x3 = 90, x4 = 1 (n1 = 1, n2 = 2; UH1 = [1], UH2 = [½, ½]), state S = 0, R = 90,
+q1 = [2, 0], q9 = [3], one day with P = E = 0: nothing is produced, 3 mm reach the routing store, the exchange is
+x2·(90/90)^3.5 = −1, so R′ = 92, Qr = 92 − 92/(1 + (92/90)⁴)^¼, Qd = max(0, 2 − 1) = 1. -/
+
+/-- the kernel (mirror of the Go code), evaluated: the runoff of the day and the packed final state row
+`[S, R, n1, n2, q1[0], q1[1], q9[0]]` -/
+theorem concrete_day_kernel :
+    (run (350 : ℝ) (-1) 90 1 1 2 ⟨0, 90, [2, 0], [3]⟩ ([0].zip [0])).2.map (·.runoff) =
+        [92 - 92 / (1 + (92 / 90 : ℝ) ^ (4 : ℝ)) ^ (0.25 : ℝ) + 1] ∧
+    pack (run (350 : ℝ) (-1) 90 1 1 2 ⟨0, 90, [2, 0], [3]⟩ ([0].zip [0])).1 1 2 =
+        [0, 92 / (1 + (92 / 90 : ℝ) ^ (4 : ℝ)) ^ (0.25 : ℝ), 1, 2, 0, 0, 0] := by
+  have r1 : List.range 1 = [0] := rfl
+  have r2 : List.range 2 = [0, 1] := rfl
+  constructor
+  · simp only [run, scan, step, production, capWs, percolation, routingOutflow, addUH, head0, shift, uh1, uh2,
+      List.map_cons, List.map_nil, RealNum.pow_eq, RealNum.tanh_eq, RealNum.ofNat_eq, OW.RR.Surm.sci, r1, r2,
+      List.zip_cons_cons, List.zip_nil_right]
+    norm_num
+  · simp only [run, scan, step, production, capWs, percolation, routingOutflow, addUH, head0, shift, uh1, uh2, pack,
+      List.map_cons, List.map_nil, RealNum.pow_eq, RealNum.tanh_eq, RealNum.ofNat_eq, OW.RR.Surm.sci, r1, r2,
+      List.zip_cons_cons, List.zip_nil_right, RR.GR4J.numOfNat_eq]
+    norm_num
+
+/-- the adapter on the packed row `[0, 90, 1, 2, 2, 0, 3]`, evaluated through `model_run_eq_packed_run`: output
+series and returned state row as numbers (the tags are those of `packedResult`) -/
+example :
+    (model (α := ℝ)).run [350, -1, 90, 1] [[0], [0]] (pack ⟨0, 90, [2, 0], [3]⟩ 1 2) =
+      .ok { outputs := [[92 - 92 / (1 + (92 / 90 : ℝ) ^ (4 : ℝ)) ^ (0.25 : ℝ) + 1]],
+            states := [0, 92 / (1 + (92 / 90 : ℝ) ^ (4 : ℝ)) ^ (0.25 : ℝ), 1, 2, 0, 0, 0],
+            tags := (RR.GR4J.packedResult 350 (-1) 90 1 1 2 ⟨0, 90, [2, 0], [3]⟩ [0] [0]).tags } := by
+  rw [model_run_eq_packed_run 350 (-1) 90 1 1 2 (by decide) (by decide) _ rfl rfl, concrete_day_kernel.1,
+    concrete_day_kernel.2]
+  rfl
+
+/-- the equations as printed (no cap), evaluated -/
+example :
+    (Spec.GR4J.run Spec.GR4J.tanhArgPublished (350 : ℝ) (-1) 90 1 ⟨0, 90, [2, 0], [3]⟩ [(0, 0)]).2.map (·.Q) =
+      [92 * (1 - (1 + (92 / 90 : ℝ) ^ (4 : ℝ)) ^ (-(0.25 : ℝ))) + 1] := by
+  simp only [Spec.GR4J.run, scan, Spec.GR4J.day, Spec.GR4J.Pn, Spec.GR4J.En, Spec.GR4J.Ps, Spec.GR4J.Es, Spec.GR4J.Perc,
+    Spec.GR4J.F, Spec.GR4J.Qr, Spec.GR4J.pow4, Spec.GR4J.sq, Spec.GR4J.uhDay, Spec.GR4J.tanhArgPublished,
+    List.map_cons, List.map_nil, RealNum.pow_eq, RealNum.tanh_eq, RealNum.ofNat_eq, RealNum.gmax_eq, OW.RR.Surm.sci]
+  norm_num
+
+/-- the two evaluated values are the same number (the code's `R − R/z^¼` is the paper's `R·(1 − z^(−¼))`) -/
+example : 92 - 92 / (1 + (92 / 90 : ℝ) ^ (4 : ℝ)) ^ (0.25 : ℝ) + 1 =
+    92 * (1 - (1 + (92 / 90 : ℝ) ^ (4 : ℝ)) ^ (-(0.25 : ℝ))) + 1 := by
+  have hb : (0 : ℝ) ≤ 1 + (92 / 90 : ℝ) ^ (4 : ℝ) := by positivity
+  rw [Real.rpow_neg hb, div_eq_mul_inv]
+  ring
+
+/-- the code's and the published ordinates for x4 = 1, evaluated: UH2 = [½, ½], and the published UH2(3) = 0 -/
+example : uh2 (1 : ℝ) 2 = [0.5, 0.5] ∧
+    [Spec.GR4J.UH2 (1 : ℝ) 1, Spec.GR4J.UH2 (1 : ℝ) 2, Spec.GR4J.UH2 (1 : ℝ) 3] = [0.5, 0.5, 0] := by
+  have r2 : List.range 2 = [0, 1] := rfl
+  constructor
+  · simp only [uh2, uh2At, RR.GR4J.sh2At_real, r2, List.map_cons, List.map_nil]
+    norm_num
+  · simp only [Spec.GR4J.UH2, RR.GR4J.SH2_real, RR.GR4J.numOfNat_eq]
+    norm_num
 
 end OW.Props.C15
